@@ -142,7 +142,7 @@ class Exec(object):
             if t[0] == 'seq':
                 return VSeq(z3.Const(fresh_name(prefix), z3.SeqSort(sort_of(t[1]))), t[1])
             if t[0] == 'dict':
-                return st.alloc(self.fresh_dict(t[1], t[2], prefix))
+                return st.alloc(self.fresh_dict(t[1], t[2], prefix, st))
             if t[0] == 'tuple':
                 return VTuple([self.fresh(x, '%s.%d' % (prefix, i), st) for i, x in enumerate(t[1:])])
             if t[0] == 'obj':
@@ -153,7 +153,7 @@ class Exec(object):
                 return VPy(t[1])
         raise Unsupported('fresh value of type %r' % (t,))
 
-    def fresh_dict(self, kt, vt, prefix):
+    def fresh_dict(self, kt, vt, prefix, st=None):
         ks = z3.Const(fresh_name(prefix + '.keys'), z3.SeqSort(sort_of(kt)))
         comps = vt[1:] if isinstance(vt, tuple) and vt[0] == 'tuple' else [vt]
         maps = [z3.Const(fresh_name('%s.map%d' % (prefix, i)), z3.ArraySort(sort_of(kt), sort_of(c)))
@@ -240,7 +240,10 @@ class Exec(object):
 
                 def present(s2):
                     h2 = s2.heap[o.ref]
+                    before = h2.keys
                     h2.keys = self.seq_remove(h2.keys, term_of(k), s2)
+                    # instance of the membership definition: exactly k is no longer a member
+                    s2.assume(memof(h2.keys) == z3.Store(memof(before), term_of(k), z3.BoolVal(False)))
                     return [('next', None, s2)]
                 return self.branch(has, s, present, lambda s2: self.exc(KeyError, s2))
             raise Unsupported('del on %r' % (o,))
@@ -252,8 +255,8 @@ class Exec(object):
         pre = z3.Const(fresh_name('rm.pre'), keys.sort())
         post = z3.Const(fresh_name('rm.post'), keys.sort())
         st.assume(keys == z3.Concat(pre, z3.Unit(k), post))
-        st.assume(z3.Not(z3.Contains(pre, z3.Unit(k))))
-        st.assume(z3.Not(z3.Contains(post, z3.Unit(k))))
+        st.assume(z3.Not(z3.Select(memof(pre), k)))
+        st.assume(z3.Not(z3.Select(memof(post), k)))
         return z3.Concat(pre, post)
 
     def st_Return(self, n, st, fr):
@@ -326,7 +329,7 @@ class Exec(object):
         if isinstance(n.value, ast.Dict) and not n.value.keys and t and t[0] == 'dict':
             try:
                 v = st.alloc(self.fresh_dict(t[1], t[2], 'newdict'))
-                st.heap[v.ref].keys = z3.Empty(z3.SeqSort(sort_of(t[1])))
+                st.heap[v.ref].set_empty()
                 return self.assign(n.target, v, st, fr)
             except (TypeError, Unsupported):
                 pass
@@ -454,7 +457,7 @@ class Exec(object):
             if isinstance(h, HDict) and h.ktype is None:
                 # first store into an untyped {} literal fixes the key/value types
                 h.ktype, h.vtype = type_of(i), type_of(v)
-                h.keys = z3.Empty(z3.SeqSort(sort_of(h.ktype)))
+                h.set_empty()
                 comps0 = h.vtype[1:] if isinstance(h.vtype, tuple) and h.vtype[0] == 'tuple' else [h.vtype]
                 h.maps = [z3.K(sort_of(h.ktype), zero_of(c)) for c in comps0]
             if isinstance(h, HDict):
